@@ -726,4 +726,21 @@ _streams_without_nushell_model = streams
 
 def streams(tier, rng):
     return _streams_without_nushell_model(tier, rng) + _nushell_model_streams(tier, rng)
+# what MANIFEST.json says about C17 after the nushell model
+RULE = RULE + ("  Stream nushell-model: trees with an adversarial text in every slot (options AND positionals, about at every "
+               "level) on which the module of the extracted nushell generator model (texts as given / innocuous) must equal the "
+               "real module byte for byte.")
+LEVEL_TEXT = (LEVEL_TEXT +
+              "  nushell: the comment theorem is composed through a byte-exact model of clap_complete_nushell (all of lib.rs; both "
+              "call paths of a help text -- option and positional -- go through the one modelled function; the padding before a "
+              "help comment is proved to depend on names only): for every command tree (any depth) whose names (bin names, "
+              "command names, argument ids, shorts, longs, aliases, possible values) contain none of \" ' ` \\ #, and for ANY two "
+              "assignments of description texts with the same presence shape, the ENTIRE modules have the same token skeleton "
+              "and final lexer state, every text is literal payload of a comment only and the module ends between words; "
+              "Command::build keeps a tree in the class, so the statement holds for generate() on the tree the user wrote.  A "
+              "quote in an argument id is a proved class boundary (witness replayed on the real generator).")
+LEVEL_NOTE = LEVEL_NOTE.replace("is proved for fish, PowerShell and elvish (generator models, tied byte for byte on every run) and "
+                                "checked on the real scripts only (oracle) for zsh and nushell.",
+                                "is proved for fish, PowerShell, elvish and nushell (generator models, tied byte for byte on every run) "
+                                "and checked on the real scripts only (oracle) for zsh.")
 # ---- end nushell generator model ----
